@@ -7,6 +7,7 @@
 import NiftyVerif.Lemmas.Descent
 import NiftyVerif.Lemmas.LineSearch
 import NiftyVerif.Lemmas.Lbfgs
+import NiftyVerif.Lemmas.LbfgsRun
 
 namespace NiftyVerif.C16
 open NiftyVerif
@@ -164,6 +165,34 @@ theorem vl_eq_lbfgs_direction {ip : V → V → K} (hip : IsIP ip) (gg : V → K
     (h0 : min stL.k mmax = 0 → gg g ≠ 0) :
     (vlDir ip gg mmax stV alV).1 = (lbfgsDir ip mmax stL x g alL).1 :=
   vl_eq_lbfgs_call hip gg mmax hmm stL stV x g alL alV hk hs hy hg hG h0
+
+/-- **the persistent stores are sound**: if before `b_dot_b` the `ss/sy/yy` stores are correct on the live window outside
+    row/column `(k-1) % mmax` (which is what `add_new_point` leaves behind, `store_invariant_step`), the assembled matrix
+    is the Gram matrix of the basis — the hypothesis of `vl_eq_two_loop`/`vl_eq_lbfgs_direction` is discharged. -/
+theorem store_gram {ip : V → V → K} (hip : IsIP ip) (gg : V → K) (mmax : Nat) (st : VLState K V)
+    (hok : StoreOK ip mmax st) :
+    IsGram ip (basis mmax st) (histLen mmax st) (bDotB ip gg mmax st).1 :=
+  bDotB_gram hip gg mmax st hok
+
+/-- the invariant is re-established by every call: `b_dot_b` makes the store fully correct on the live window, and
+    `add_new_point` then only invalidates the slot that the next `b_dot_b` refreshes -/
+theorem store_invariant_step {ip : V → V → K} (hip : IsIP ip) (gg : V → K) (mmax : Nat) (hmm : 0 < mmax)
+    (st : VLState K V) (x g : V) (hok : StoreOK ip mmax st) :
+    StoreFull ip mmax (bDotB ip gg mmax st).2 ∧
+    StoreOK ip mmax (addNewPoint mmax (bDotB ip gg mmax st).2 x g) :=
+  ⟨storeFull_after hip gg mmax st hok,
+   addNewPoint_ok ip mmax hmm _ x g (storeFull_after hip gg mmax st hok)⟩
+
+/-- **whole minimiser runs, every history**: fed the same sequence of `(position, gradient, reset)` points — any
+    length, any `max_history_length ≥ 1`, wrap-around and resets included, arbitrary garbage in the unwritten buffer
+    slots / `np.empty` stores / `alpha` scratch arrays — `VL_BFGS` and `L_BFGS` return the same list of directions.
+    (`gg p.g ≠ 0`: the gradient norm is non-zero, which `DescentMinimizer.__call__` checks before asking for a direction;
+    it is only used at calls with an empty history, where the code divides `‖g‖` by itself.) -/
+theorem vl_run_eq_lbfgs_run {ip : V → V → K} (hip : IsIP ip) (gg : V → K) (mmax : Nat) (hmm : 0 < mmax)
+    (alL alV : Nat → K) (s0 y0 : Nat → V) (e0 : Nat → Nat → K) (pts : List (Point V))
+    (hgg : ∀ p ∈ pts, gg p.g ≠ 0) (stL : LState V) (h0 : stL.k = 0) (hs : stL.s = s0) (hy : stL.y = y0) :
+    runVL ip gg mmax alV s0 y0 e0 pts none = runL ip mmax alL s0 y0 pts stL :=
+  runVL_eq_runL hip gg mmax hmm alL alV s0 y0 e0 pts hgg stL none ⟨h0, hs, hy⟩
 
 /-- non-vacuity: `V = K = ℚ` with `ip = (· * ·)` is a lawful inner product -/
 example : IsIP (K := Rat) (V := Rat) (fun a b => a * b) :=
